@@ -134,6 +134,12 @@ theorem late_synack_changes_nothing (env : Env) (now : Time) (c : Conn) (p : Pac
     (hst : c.state = STATE_CONNECTED) (hno : ∀ e ∈ c.ackEvents, e.1.1 ≠ TYPE_SYN) : (c.handle env now p).c = c :=
   late_syn_inert env now c p hp hst hno
 
+/-- … and a CONNECT packet (a late, duplicated or crafted CONNECT/ACK, or a CONNECT request) handed to a client connection that
+    has no CONNECT waiting for its acknowledgement changes nothing either, in any state -/
+theorem late_connect_changes_nothing (env : Env) (now : Time) (c : Conn) (p : Packet) (hp : p.type = TYPE_CONNECT)
+    (hno : ∀ e ∈ c.ackEvents, e.1.1 ≠ TYPE_CONNECT) : (c.handle env now p).c = c :=
+  late_connect_inert env now c p hp hno
+
 /-! non-vacuity -/
 example : ServerT.conn { streams := [(portKey 1 10, { key := none, supFuncs := 0, maxSub := 0, minorVer := 0, addr := ("s", 1), port := 1, type := 10 })] }
     (portKey 1 10) (("a", 2), 15, 10) = none := by decide
